@@ -227,6 +227,26 @@ def build(spec):
     """Build the array described by ``spec`` through a public constructor
     (``spec["via"]``: the class itself, ``random``, ``from_fill_fn``,
     ``from_blocks`` or ``from_dense``)."""
+    if spec.get("via") == "get_rand":
+        # the library's own random-array helper (public, used by its tests):
+        # shape entries are ints, explicit charge->size dicts or BlockIndex
+        shape = []
+        for e in spec["shape"]:
+            if isinstance(e, int):
+                shape.append(e)
+            elif e.get("as") == "index":
+                shape.append(sr.BlockIndex({untuple(c): int(d) for c, d in e["cm"]},
+                                           dual=bool(e["dual"])))
+            else:
+                shape.append({untuple(c): int(d) for c, d in e["cm"]})
+        kw = {}
+        if spec["kind"] == "F" and spec.get("oddpos") is not None:
+            kw["oddpos"] = oddpos_arg(spec["oddpos"])
+        duals = spec.get("duals")
+        return sr.utils.get_rand(
+            spec["sym"], tuple(shape), duals=duals, charge=untuple(spec["charge"]),
+            seed=spec["seed"], fermionic=spec["kind"] == "F",
+            subsizes=spec.get("subsizes"), dtype=spec.get("dtype", "float64"), **kw)
     cls, dynamic = get_class(spec["kind"], spec["sym"], spec["static"])
     indices = make_indices(spec)
     charge = untuple(spec["charge"])
@@ -235,6 +255,8 @@ def build(spec):
     kw = {}
     if spec["kind"] == "F":
         kw["oddpos"] = oddpos_arg(spec.get("oddpos"))
+        if spec.get("phases"):
+            kw["phases"] = {untuple(t): -1 for t in spec["phases"]}
 
     def data(sec):
         shape = tuple(ix.size_of(c) for ix, c in zip(indices, sec))
@@ -334,6 +356,7 @@ def _finish_variant(rng, spec, indices, labels, sectors=None, charge=None, sym=N
     else:
         secs = sectors
     new = dict(spec)
+    new.pop("phases", None)  # a sign table only makes sense for the sectors it was drawn for
     new.update(sym=sym, indices=jsonable(indices), charge=jsonable(charge),
                sectors=jsonable(secs))
     if sym == "Z4":
